@@ -89,7 +89,7 @@ type c18Case struct {
 	Desc     string   `json:"description"`
 }
 
-var c18Scenarios = []string{"plain", "prefix", "alias=last-element", "alias=real-name", "importname", "anon-then-ref", "dict-value", "file-path-ends-in-package-path", "file-path-is-last-element"}
+var c18Scenarios = []string{"next-to-a-third-party-import", "aliased-next-to-a-third-party-import", "after-two-third-party-packages-of-the-same-name", "plain", "prefix", "alias=last-element", "alias=real-name", "importname", "anon-then-ref", "dict-value", "file-path-ends-in-package-path", "file-path-is-last-element"}
 
 func lastElem(p string) string {
 	p = strings.TrimSuffix(p, "/")
@@ -124,6 +124,15 @@ func c18World(names map[string]string, paths []string, scenario string) *imp.Wor
 	switch scenario {
 	case "second-aliased-to-name-of-first":
 		w.Alias(paths[1], names[paths[0]])
+	case "next-to-a-third-party-import":
+		w.Ref("github.com/foo/bar", 0)
+	case "aliased-next-to-a-third-party-import":
+		w.Ref("github.com/foo/bar", 0)
+		w.Alias(paths[0], "zq")
+	case "after-two-third-party-packages-of-the-same-name":
+		n := names[paths[0]]
+		w.Ref("x0/"+n, 0)
+		w.Ref("x1/"+n, 0)
 	case "prefix":
 		w.Prefix("pkg")
 	case "alias=last-element":
@@ -234,8 +243,8 @@ func runC18(r *ev.Recorder) {
 		}
 	}
 	r.Rule = "every package directory below <GOROOT>/src of the installed toolchain (outside cmd, vendor, testdata; package name = the name its non-test files declare, parsed with go/parser), " +
-		"(a) alone under 9 scenarios (plain, PackagePrefix, ImportAlias = last path element, ImportAlias = real name, truthful ImportName, Anon then reference, Anon then reference inside a Dict value, in a File whose own package path ends in the package path, in a File whose own path is the last element); " +
-		"(b) every ordered pair of packages, plain, with prefix, and with the second aliased to the name of the first (pairs that share a declared or guessed name - thorough: all pairs - also inside a Dict after Anon, with aliases, and Anon then reference); " +
+		"(a) alone under 12 scenarios (next to a third-party import, aliased next to one, after two third-party packages of the same name, plain, PackagePrefix, ImportAlias = last path element, ImportAlias = real name, truthful ImportName, Anon then reference, Anon then reference inside a Dict value, in a File whose own package path ends in the package path, in a File whose own path is the last element); " +
+		"(b) every ordered pair of packages, plain, with prefix, and with the second aliased to the name of the first (pairs that share a declared or guessed name - thorough: all pairs - also inside a Dict after Anon, with aliases, Anon then reference, and next to a third-party import); every ordered triple of packages sharing a declared name; " +
 		"oracle on the parsed output: the spec of the path has no alias and the qualifier is the declared name, or has an alias equal to the qualifier; names unique; go/types resolves every reference against a fabricated importer declaring the parsed names. " +
 		"(c) the repository's gennames tool is built and run (-standard -novendor) and every entry of the table it writes must equal the parsed name of that directory. " +
 		"distinct_nontrivial = distinct (path set, scenario) cases in which some package's declared name differs from its last path element or two packages compete for a name"
@@ -291,12 +300,36 @@ func runC18(r *ev.Recorder) {
 			one(ps, "plain")
 			one(ps, "prefix")
 			one(ps, "second-aliased-to-name-of-first")
+			if names[ps[0]] == names[ps[1]] {
+				one(ps, "next-to-a-third-party-import")
+				one(ps, "aliased-next-to-a-third-party-import")
+			}
 			if names[ps[0]] == names[ps[1]] || guessKey(ps[0]) == guessKey(ps[1]) || names[ps[0]] == guessKey(ps[1]) || names[ps[1]] == guessKey(ps[0]) || r.Tier == ev.Thorough {
 				one(ps, "dict-value")
 				one(ps, "alias=last-element")
 				one(ps, "anon-then-ref")
 			}
 		})
+		// every ordered triple of packages that share a declared name
+		byName := map[string][]string{}
+		for _, p := range paths {
+			byName[names[p]] = append(byName[names[p]], p)
+		}
+		for _, grp := range byName {
+			if len(grp) < 3 {
+				continue
+			}
+			for _, a := range grp {
+				for _, b := range grp {
+					for _, c := range grp {
+						if a != b && b != c && a != c {
+							one([]string{a, b, c}, "plain")
+							one([]string{a, b, c}, "next-to-a-third-party-import")
+						}
+					}
+				}
+			}
+		}
 		for _, p := range []string{"math/rand", "text/template", "math/rand/v2"} {
 			if _, ok := names[p]; ok && r.WantSample() {
 				w := c18World(names, []string{p, strings.Replace(strings.Replace(p, "math", "crypto", 1), "text", "html", 1)}, "plain")
@@ -310,7 +343,10 @@ func runC18(r *ev.Recorder) {
 		out := filepath.Join(os.Getenv("VERIF_SCRATCH"), "gennames-out.go")
 		cmd := exec.Command(gn, "-standard", "-novendor", "-output", out, "-package", "x", "-name", "Names")
 		cmd.Env = append(os.Environ(), "GOROOT="+runtime.GOROOT())
-		if b, err := cmd.CombinedOutput(); err != nil {
+		var b []byte
+		var err error
+		r.External(func() { b, err = cmd.CombinedOutput() })
+		if err != nil {
 			r.Violate(ev.Violation{Signature: "c18:gennames-fails", What: "gennames -standard -novendor fails: " + err.Error(), Case: ev.JSON(c18Case{Scenario: "gennames", Desc: "gennames"}), Detail: string(b)})
 		} else {
 			table, err := parseNameTable(out)
